@@ -7,7 +7,14 @@ props = [json.loads(l)["id"] for l in open(os.path.join(ROOT, "properties.jsonl"
 checks, na = [], []
 for pid in props:
     cfgp = os.path.join(ROOT, "checks", pid + ".json")
-    m = meta["properties"].get(pid, {})
+    m = dict(meta["properties"].get(pid, {}))
+    # notes/<Cxx>.manifest.json, written by whoever built the property, overrides the level texts
+    ov = os.path.join(ROOT, "notes", pid + ".manifest.json")
+    if os.path.exists(ov):
+        o = json.load(open(ov))
+        for k in ("level_text", "level_note", "technique"):
+            if o.get(k):
+                m[k] = o[k]
     if os.path.exists(cfgp) and m.get("claimed"):
         checks.append({
             "property_id": pid,
@@ -18,7 +25,7 @@ for pid in props:
             "engine": "lean4-proof+correspondence",
             "level_claimed": {"category": "proof", "text": m["level_text"], "design_ref": m.get("design_ref", "DESIGN.md §6 " + pid)},
             "level_note": m["level_note"],
-            "technique": m.get("technique", "Lean 4 theorems over a hand-written model + differential correspondence check against the real code"),
+            "technique": m.get("technique", "machine-checked proof in Lean 4: kernel-checked theorems over a hand-written executable model, the model tied to /repo on every run by a differential correspondence check (real code and compiled Lean driver on the same generated inputs)" + (" and by fact tables regenerated from the source with go/ast and closed by decide +kernel" if json.load(open(cfgp)).get("generated") else "")),
         })
     else:
         na.append({"property_id": pid, "reason": m.get("na_reason", "not built yet: model, theorems and correspondence for this property are still to be written (DESIGN.md §6); nothing is claimed")})
